@@ -687,6 +687,7 @@ pub fn run_program(src: &str, only: Option<(&str, &[Vec<V>])>, nvec: usize, rng:
                             hist.add("gen:vector:source-not-valid-hlsl");
                             continue;
                         }
+                        let why_kept = why.clone();
                         let detail = format!(
                             "{} args [{}]: IR gives {} but the emitted Metal {}{}",
                             emitted_name,
@@ -698,7 +699,10 @@ pub fn run_program(src: &str, only: Option<(&str, &[Vec<V>])>, nvec: usize, rng:
                         // classification against the alternative reading / the known hazards
                         let alt = MslEval::new(items, true).run(emitted_name, &top, &statics);
                         msleval::take_stuck();
-                        if cmp(&alt).is_ok() && items.iter().any(has_literal_hazard) {
+                        if let Some((Stuck::Class(c), _)) = &why_kept {
+                            // the Metal reading itself names what is wrong with the emitted tree
+                            fails.push(format!("class:{} ## {}", c, detail));
+                        } else if cmp(&alt).is_ok() && items.iter().any(has_literal_hazard) {
                             fails.push(format!("class:metal-integer-literal-typing ## {}", detail));
                         } else if inout_order_hazard(&p.prog) {
                             fails.push(format!("class:inout-copy-in-after-later-arguments ## {}", detail));
@@ -868,6 +872,61 @@ pub fn chain_programs() -> Vec<(String, Vec<String>, Vec<Vec<V>>)> {
             ));
             names.push("g0".to_string());
             out.push((src, names, vectors.clone()));
+        }
+    }
+    // `%=`: on floats the Metal exporter writes `x = metal::fmod(x, y)` for a plain target and a right operand free of writes
+    // (fixes 92d66eb + 35faaaa) and refuses the module otherwise; on integers the operator stays
+    let f32v = |x: f32| V::F(x.to_bits());
+    for ty in ["float", "int"] {
+        let vectors: Vec<Vec<V>> = if ty == "float" {
+            vec![
+                vec![f32v(7.5), f32v(2.0), f32v(3.25), f32v(0.5), V::B(true)],
+                vec![f32v(-7.5), f32v(2.0), f32v(-1.5), f32v(4.0), V::B(false)],
+                vec![f32v(1e30), f32v(3.0), f32v(1.0), f32v(1e-3), V::B(true)],
+                vec![f32v(5.0), f32v(0.0), f32v(2.0), f32v(1.0), V::B(false)],
+            ]
+        } else {
+            vec![
+                vec![V::I(17), V::I(5), V::I(3), V::I(2), V::B(true)],
+                vec![V::I(0xffff_ffef), V::I(5), V::I(0xffff_fffd), V::I(7), V::B(false)],
+                vec![V::I(0x7fff_ffff), V::I(2), V::I(9), V::I(4), V::B(true)],
+            ]
+        };
+        let one = if ty == "float" { "1.0f" } else { "1" };
+        let init = if ty == "float" { "7.5f" } else { "7" };
+        let accepted = [
+            format!("a %= b;\n    return a;"),
+            format!("a %= (b + c * d);\n    return a;"),
+            format!("gs %= (k ? a : b);\n    return gs;"),
+            format!("a %= b;\n    a %= c;\n    return a % d;"),
+            format!("{0} r = a;\n    r %= (r + b);\n    return r + (r %= c);", ty),
+            format!("a %= ({0})(k ? 3 : 5);\n    gs %= -a + {1};\n    return a + gs;", ty, one),
+        ];
+        let mut src = format!("static {0} gs = {1};\n\n{0} h({0} x)\n{{\n    return x;\n}}\n\n", ty, init);
+        let mut names = Vec::new();
+        for (i, b) in accepted.iter().enumerate() {
+            let name = format!("r{}", i);
+            src.push_str(&format!("{0} {1}({0} a, {0} b, {0} c, {0} d, bool k)\n{{\n    {2}\n}}\n\n", ty, name, b));
+            names.push(name);
+        }
+        out.push((src, names, vectors.clone()));
+        // right operands that write / a target that is not a plain place: refused on floats (one per module), exported on integers
+        for (i, b) in [
+            "a %= h(b);\n    return a;".to_string(),
+            "a %= (a = b);\n    return a;".to_string(),
+            "a %= b++;\n    return a + b;".to_string(),
+            "gs %= (b, c);\n    return gs;".to_string(),
+            "(a = b) %= c;\n    return a;".to_string(),
+        ]
+        .iter()
+        .enumerate()
+        {
+            let src = format!(
+                "static {0} gs = {1};\n\n{0} h({0} x)\n{{\n    gs = gs + x;\n    return x;\n}}\n\n{0} q{2}({0} a, {0} b, {0} c, {0} d, bool k)\n{{\n    {3}\n}}\n",
+                ty, init, i, b
+            )
+            ;
+            out.push((src, vec![format!("q{}", i)], vectors.clone()));
         }
     }
     out
